@@ -1,15 +1,22 @@
 package mcpserver
 
-// C40 harness: a real InMemoryStore is populated with generated topics, partition
-// growth, next offsets, committed offsets, groups and topic configs; every tool the
-// real ops MCP server lists is then called with generated arguments through a real
-// MCP client/server session (in-memory transport), the store sitting behind a
-// recording wrapper. Oracle: the complete store state (all fields, dumped in-package
-// by a verif-tagged helper) and its public read-back are the same after the call as
-// before, whatever the tool answered. The populate ops, the tool name and the
-// recorded store calls with their answers go to Coq (corr/MetaStoreCorr.v
-// check_case40: replays the calls on the model, state unchanged, every recorded method
-// listed for that tool in the regenerated gen/McpCalls.v).
+// C40 harness: a real InMemoryStore starts from a cluster snapshot (topics known only from
+// the snapshot have no recorded config) and is populated with created topics, partition
+// growth, next offsets, committed offsets, groups, topic configs, snapshot refreshes; an
+// identically populated twin is built next to it. Every tool the real ops MCP server
+// lists is called with generated arguments through a real MCP client/server session
+// (in-memory transport), the store sitting behind a recording wrapper. Oracles:
+//   * every field of the store (reflective in-package dump by a verif-tagged helper: all
+//     internal tables, present and future) and its public read-back are the same after
+//     the call as before, whatever the tool answered;
+//   * the store and its twin (which saw no tool call) are indistinguishable right after the
+//     calls and after each of a generated sequence of later operations applied to both
+//     (snapshot refresh with grown topics, CreatePartitions, UpdateTopicConfig, CreateTopic,
+//     DeleteTopic) - hidden state that only matters later shows here.
+// The populate ops, the tool name, the recorded store calls with their answers and the
+// real store's internal tables after the call go to Coq (corr/MetaStoreCorr.v
+// check_case40: replays the calls on the model, model state unchanged AND equal to the
+// real internal tables, every recorded method listed for that tool in gen/McpCalls.v).
 
 import (
 	"context"
@@ -35,8 +42,13 @@ type c40Member struct {
 	Parts   []int32  `json:"parts"`
 	Session int32    `json:"session"`
 }
+type c40Topic struct {
+	Name  string `json:"name"`
+	Parts int    `json:"parts"`
+}
 type c40Op struct {
-	K       string      `json:"k"` // ct cp uo co pg uc
+	K       string      `json:"k"` // ct cp uo co pg uc dt, up = InMemoryStore.Update(snapshot)
+	Topics  []c40Topic  `json:"topics,omitempty"`
 	Topic   string      `json:"topic,omitempty"`
 	Group   string      `json:"group,omitempty"`
 	Part    int32       `json:"part,omitempty"`
@@ -54,9 +66,35 @@ type c40Call struct {
 	Args json.RawMessage `json:"args"`
 }
 type c40Case struct {
-	Brokers  int       `json:"brokers"`
-	Populate []c40Op   `json:"populate"`
-	Calls    []c40Call `json:"calls"`
+	Brokers  int        `json:"brokers"`
+	Initial  []c40Topic `json:"initial"` // topics the store knows only from its cluster snapshot (no recorded config)
+	Populate []c40Op    `json:"populate"`
+	Calls    []c40Call  `json:"calls"`
+	Later    []c40Op    `json:"later"` // applied after the calls, to this store and to a twin that saw no tool call
+}
+
+func c40Snapshot(brokers int, topics []c40Topic) metadata.ClusterMetadata {
+	name := "verif"
+	st := metadata.ClusterMetadata{ControllerID: 1, ClusterName: &name}
+	for i := 0; i < brokers; i++ {
+		st.Brokers = append(st.Brokers, protocol.MetadataBroker{NodeID: int32(i + 1), Host: "h", Port: 9092})
+	}
+	for _, t := range topics {
+		n := t.Name
+		mt := protocol.MetadataTopic{Topic: &n}
+		for p := 0; p < t.Parts; p++ {
+			mt.Partitions = append(mt.Partitions, protocol.MetadataPartition{Partition: int32(p), Leader: 1, Replicas: []int32{1}, ISR: []int32{1}})
+		}
+		st.Topics = append(st.Topics, mt)
+	}
+	return st
+}
+func c40CoqUpdate(brokers int, topics []c40Topic) string {
+	it := make([]string, len(topics))
+	for i, t := range topics {
+		it[i] = fmt.Sprintf("(%s, %d)", c40Str(t.Name), t.Parts)
+	}
+	return fmt.Sprintf("OUpdate %d %s", brokers, cqList(it))
 }
 
 func c40Str(s string) string {
@@ -159,6 +197,12 @@ func c40Populate(ctx context.Context, st *metadata.InMemoryStore, op c40Op) stri
 		s := "OUpdateCfg " + c40CoqCfgPB(c)
 		_ = st.UpdateTopicConfig(ctx, c)
 		return s
+	case "dt":
+		_ = st.DeleteTopic(ctx, op.Topic)
+		return "ODeleteTopic " + c40Str(op.Topic)
+	case "up": // snapshot refresh; op.N carries the broker count
+		st.Update(c40Snapshot(int(op.N), op.Topics))
+		return c40CoqUpdate(int(op.N), op.Topics)
 	}
 	panic("populate kind " + op.K)
 }
@@ -294,6 +338,32 @@ func (r *c40Rec) DeleteTopic(ctx context.Context, name string) error {
 	return err
 }
 
+// the real store's internal tables as a Coq [inmem] term
+func c40CoqState(st *metadata.InMemoryStore) string {
+	v := metadata.VerifModelState(st)
+	ts := make([]string, len(v.Topics))
+	for i, t := range v.Topics {
+		ts[i] = fmt.Sprintf("(%s, %d)", c40Str(t.Name), t.Parts)
+	}
+	os_ := make([]string, len(v.Offsets))
+	for i, o := range v.Offsets {
+		os_[i] = fmt.Sprintf("((%s, %s), %s)", c40Str(o.Topic), cqZ(int64(o.Part)), cqZ(o.Next))
+	}
+	cs := make([]string, len(v.Coffs))
+	for i, c := range v.Coffs {
+		cs[i] = fmt.Sprintf("((%s, %s, %s), (%s, %s))", c40Str(c.Group), c40Str(c.Topic), cqZ(int64(c.Part)), cqZ(c.Off), c40Str(c.Meta))
+	}
+	gs := make([]string, len(v.Groups))
+	for i, g := range v.Groups {
+		gs[i] = "(" + c40Str(g.GroupId) + ", " + c40CoqGroupPB(g) + ")"
+	}
+	cf := make([]string, len(v.Cfgs))
+	for i, c := range v.Cfgs {
+		cf[i] = "(" + c40Str(v.CfgKeys[i]) + ", " + c40CoqCfgPB(c) + ")"
+	}
+	return fmt.Sprintf("(mkInmem %d %s %s %s %s %s)", v.Brokers, cqList(ts), cqList(os_), cqList(cs), cqList(gs), cqList(cf))
+}
+
 // public read-back of everything the Store interface can observe
 func c40ReadBack(ctx context.Context, st *metadata.InMemoryStore) string {
 	var sb strings.Builder
@@ -328,9 +398,58 @@ func c40ReadBack(ctx context.Context, st *metadata.InMemoryStore) string {
 var c40Topics = []string{"orders", "events", "a.b", "logs", "metrics"}
 var c40Groups = []string{"g1", "g2", "billing", "a:b"}
 
+func c40GenSnapshotTopics(r *vRand, lo, hi int) []c40Topic {
+	var out []c40Topic
+	seen := map[string]bool{}
+	for i := 0; i < r.Range(lo, hi); i++ {
+		n := c40Topics[r.Intn(len(c40Topics))]
+		if !seen[n] {
+			seen[n] = true
+			out = append(out, c40Topic{Name: n, Parts: r.Range(1, 5)})
+		}
+	}
+	return out
+}
+
+// operations applied after the tool calls to the store and to its twin
+func c40GenLater(r *vRand, cs c40Case) []c40Op {
+	var ops []c40Op
+	for i := 0; i < r.Range(1, 4); i++ {
+		t := c40Topics[r.Intn(len(c40Topics))]
+		switch r.Intn(7) {
+		case 0, 1, 2: // snapshot refresh: the known snapshot topics grow, maybe one more appears
+			var ts []c40Topic
+			for _, it := range cs.Initial {
+				ts = append(ts, c40Topic{Name: it.Name, Parts: it.Parts + r.Range(0, 3)})
+			}
+			if r.Chance(50) {
+				ts = append(ts, c40GenSnapshotTopics(r, 1, 2)...)
+			}
+			seen := map[string]bool{}
+			var uniq []c40Topic
+			for _, x := range ts {
+				if !seen[x.Name] {
+					seen[x.Name] = true
+					uniq = append(uniq, x)
+				}
+			}
+			ops = append(ops, c40Op{K: "up", N: int64(cs.Brokers), Topics: uniq})
+		case 3:
+			ops = append(ops, c40Op{K: "cp", Topic: t, N: int64(r.Range(2, 8))})
+		case 4:
+			ops = append(ops, c40Op{K: "uc", Topic: t, N: int64(r.Range(0, 1) * 4), RetMs: 777})
+		case 5:
+			ops = append(ops, c40Op{K: "ct", Topic: t, N: int64(r.Range(1, 3))})
+		default:
+			ops = append(ops, c40Op{K: "dt", Topic: t})
+		}
+	}
+	return ops
+}
+
 func c40GenPopulate(r *vRand) []c40Op {
 	var ops []c40Op
-	nt := r.Range(0, 4)
+	nt := r.Range(0, 3)
 	for i := 0; i < nt; i++ {
 		t := c40Topics[r.Intn(len(c40Topics))]
 		ops = append(ops, c40Op{K: "ct", Topic: t, N: int64(r.Range(1, 4))})
@@ -347,6 +466,12 @@ func c40GenPopulate(r *vRand) []c40Op {
 		for p := 0; p < r.Range(0, 3); p++ {
 			ops = append(ops, c40Op{K: "uo", Topic: t, Part: int32(r.Range(0, 3)), N: int64(r.Range(0, 500))})
 		}
+	}
+	if r.Chance(25) {
+		ops = append(ops, c40Op{K: "up", N: int64(r.Range(1, 3)), Topics: c40GenSnapshotTopics(r, 1, 4)})
+	}
+	if r.Chance(15) {
+		ops = append(ops, c40Op{K: "dt", Topic: c40Topics[r.Intn(len(c40Topics))]})
 	}
 	for i := 0; i < r.Range(0, 6); i++ {
 		ops = append(ops, c40Op{K: "co", Group: c40Groups[r.Intn(len(c40Groups))], Topic: c40Topics[r.Intn(len(c40Topics))], Part: int32(r.Range(0, 3)), N: int64(r.Range(0, 900)), Meta: []string{"", "m", "mëta"}[r.Intn(3)]})
@@ -433,18 +558,26 @@ type c40Result struct {
 }
 
 // c40Run populates a fresh store and performs the calls of the case.
+func c40Build(ctx context.Context, cs c40Case) (*metadata.InMemoryStore, []string) {
+	st := metadata.NewInMemoryStore(c40Snapshot(cs.Brokers, cs.Initial))
+	pop := []string{c40CoqUpdate(cs.Brokers, cs.Initial)} // the model starts empty: the initial snapshot is its first op
+	for _, op := range cs.Populate {
+		pop = append(pop, c40Populate(ctx, st, op))
+	}
+	return st, pop
+}
+
+// c40Run populates a fresh store (and an identical twin that no tool ever touches),
+// performs the calls of the case on the first, then applies the later operations to both.
 func c40Run(t *testing.T, cs c40Case, rep *vReport) c40Result {
 	ctx := context.Background()
 	var res c40Result
-	brokers := make([]protocol.MetadataBroker, cs.Brokers)
-	for i := range brokers {
-		brokers[i] = protocol.MetadataBroker{NodeID: int32(i + 1), Host: "h", Port: 9092}
-	}
-	name := "verif"
-	st := metadata.NewInMemoryStore(metadata.ClusterMetadata{ControllerID: 1, Brokers: brokers, ClusterName: &name})
-	pop := make([]string, len(cs.Populate))
-	for i, op := range cs.Populate {
-		pop[i] = c40Populate(ctx, st, op)
+	st, pop := c40Build(ctx, cs)
+	twin, _ := c40Build(ctx, cs)
+	setFail := func(key, what string) {
+		if res.fail == "" {
+			res.key, res.fail = key, what
+		}
 	}
 	rec := &c40Rec{inner: st}
 	server := NewServer(Options{Store: rec, Version: "verif"})
@@ -460,13 +593,17 @@ func c40Run(t *testing.T, cs c40Case, rep *vReport) c40Result {
 		t.Fatalf("client connect: %v", err)
 	}
 	defer sess.Close()
+	lastTool := ""
 	for _, call := range cs.Calls {
-		before, beforePub := metadata.VerifSnapshot(st), c40ReadBack(ctx, st)
+		lastTool = call.Tool
+		// internal dumps only around the call: a public read-back here could itself trigger (and
+		// so hide) a read method that writes
+		before := metadata.VerifSnapshot(st)
 		rec.trace, rec.names = nil, nil
 		var args any
 		_ = json.Unmarshal(call.Args, &args)
 		out, callErr := sess.CallTool(ctx, &mcp.CallToolParams{Name: call.Tool, Arguments: args})
-		after, afterPub := metadata.VerifSnapshot(st), c40ReadBack(ctx, st)
+		after := metadata.VerifSnapshot(st)
 		if rep != nil {
 			rep.Hist("tool:" + call.Tool)
 			switch {
@@ -481,21 +618,41 @@ func c40Run(t *testing.T, cs c40Case, rep *vReport) c40Result {
 				rep.Hist("store-call:" + n)
 			}
 		}
-		if before != after || beforePub != afterPub {
-			if res.fail == "" {
-				res.key = "state-changed-by-" + call.Tool
-				res.fail = fmt.Sprintf("tool %s with arguments %s changed the metadata store (store calls: %v)\nbefore:\n%s\nafter:\n%s", call.Tool, string(call.Args), rec.names, before, after)
-			}
+		if before != after {
+			setFail("state-changed-by-"+call.Tool, fmt.Sprintf("tool %s with arguments %s changed the metadata store (store calls: %v)\ninternal state before:\n%s\nafter:\n%s", call.Tool, string(call.Args), rec.names, before, after))
 		}
-		res.coq = append(res.coq, fmt.Sprintf("mkCase40 %d %s %s %s", cs.Brokers, cqList(pop), c40Str(call.Tool), cqList(rec.trace)))
-		one, _ := json.Marshal(c40Case{Brokers: cs.Brokers, Populate: cs.Populate, Calls: []c40Call{call}})
+		res.coq = append(res.coq, fmt.Sprintf("mkCase40 %d %s %s %s %s", cs.Brokers, cqList(pop), c40Str(call.Tool), cqList(rec.trace), c40CoqState(st)))
+		one, _ := json.Marshal(c40Case{Brokers: cs.Brokers, Initial: cs.Initial, Populate: cs.Populate, Calls: []c40Call{call}, Later: cs.Later})
 		res.jsons = append(res.jsons, string(one))
 	}
+	// twin oracle: the store the tools ran on and its untouched twin must be indistinguishable,
+	// now and after the same later operations (snapshot refreshes, growth, config updates, ...)
+	key := "twin-diverges-after-tools"
+	if len(cs.Calls) == 1 {
+		key = "twin-diverges-after-" + lastTool
+	}
+	cmp := func(when string, public bool) {
+		a, b := metadata.VerifSnapshotStable(st), metadata.VerifSnapshotStable(twin)
+		ap, bp := "", ""
+		if public { // only at the very end, after the internal comparison (reads may write)
+			ap, bp = c40ReadBack(ctx, st), c40ReadBack(ctx, twin)
+		}
+		if a != b || ap != bp {
+			setFail(key, fmt.Sprintf("%s the store the tools were called on differs from an identically populated store that saw no tool call\nread-back with tools:    %s\nread-back without tools: %s\ninternal state with tools:\n%s\nwithout:\n%s", when, ap, bp, a, b))
+		}
+	}
+	cmp("right after the calls", false)
+	for i, op := range cs.Later {
+		_ = c40Populate(ctx, st, op)
+		_ = c40Populate(ctx, twin, op)
+		cmp(fmt.Sprintf("after later operation %d (%s)", i, op.K), false)
+	}
+	cmp("at the end (public read-back)", true)
 	return res
 }
 
 func TestVerifC40(t *testing.T) {
-	rep := vNewReport("C40", "a real InMemoryStore populated with 0-4 topics (partition growth, configs, next offsets), 0-6 committed offsets and 0-3 groups; every tool listed by the real MCP server (tools/list) is called through a real client session with generated arguments (absent / empty / unknown / duplicate / 300-element / 300-byte / unicode names and group ids) behind a recording Store wrapper; a case is non-trivial when the store is non-empty and the tool made at least one store call; distinct = distinct (populate ops, tool, arguments)")
+	rep := vNewReport("C40", "a real InMemoryStore that starts from a cluster snapshot with 0-3 topics known only from the snapshot (no recorded config), populated with 0-3 created topics (partition growth, configs, next offsets), snapshot refreshes, topic deletion, 0-6 committed offsets and 0-3 groups, plus an identically populated twin that no tool touches; every tool listed by the real MCP server (tools/list) is called through a real client session with generated arguments (absent / empty / unknown / duplicate / 300-element / 300-byte / unicode names and group ids) behind a recording Store wrapper; after the calls 1-4 later operations (snapshot refresh growing the snapshot topics, CreatePartitions, UpdateTopicConfig, CreateTopic, DeleteTopic) are applied to both stores; a case is non-trivial when the store is non-empty and the tool made at least one store call; distinct = distinct (populate ops, tool, arguments)")
 	ctx := context.Background()
 	// the tools the real server advertises
 	var tools []string
@@ -528,21 +685,24 @@ func TestVerifC40(t *testing.T) {
 		res := c40Run(t, cs, rep)
 		for i, call := range cs.Calls {
 			canon, _ := json.Marshal([]any{cs.Populate, call})
-			rep.Count(string(canon), len(cs.Populate) > 0 && i < len(res.coq) && !strings.HasSuffix(res.coq[i], " []"))
+			rep.Count(string(canon), len(cs.Populate)+len(cs.Initial) > 0 && i < len(res.coq) && !strings.Contains(res.coq[i], ") [] (mkInmem"))
 		}
 		rep.Sample(cs)
 		if res.fail != "" {
 			// shrink: one call, then the populate ops
 			shr := cs
 			for _, call := range cs.Calls {
-				one := c40Case{Brokers: cs.Brokers, Populate: cs.Populate, Calls: []c40Call{call}}
+				one := c40Case{Brokers: cs.Brokers, Initial: cs.Initial, Populate: cs.Populate, Calls: []c40Call{call}, Later: cs.Later}
 				if r1 := c40Run(t, one, nil); r1.fail != "" {
 					shr = one
 					break
 				}
 			}
 			shr.Populate = vShrink(shr.Populate, func(ops []c40Op) bool {
-				return c40Run(t, c40Case{Brokers: shr.Brokers, Populate: ops, Calls: shr.Calls}, nil).fail != ""
+				return c40Run(t, c40Case{Brokers: shr.Brokers, Initial: shr.Initial, Populate: ops, Calls: shr.Calls, Later: shr.Later}, nil).fail != ""
+			})
+			shr.Later = vShrink(shr.Later, func(ops []c40Op) bool {
+				return c40Run(t, c40Case{Brokers: shr.Brokers, Initial: shr.Initial, Populate: shr.Populate, Calls: shr.Calls, Later: ops}, nil).fail != ""
 			})
 			r2 := c40Run(t, shr, nil)
 			if r2.fail == "" {
@@ -560,14 +720,20 @@ func TestVerifC40(t *testing.T) {
 		}
 		runOne(cs)
 	} else {
+		// corpus: a topic known only from the cluster snapshot (no recorded config) is described,
+		// then the snapshot is refreshed with more partitions for it
+		runOne(c40Case{Brokers: 1, Initial: []c40Topic{{Name: "orders", Parts: 2}},
+			Calls: []c40Call{{Tool: toolDescribeConfigs, Args: json.RawMessage(`{}`)}, {Tool: toolDescribeConfigs, Args: json.RawMessage(`{"topics":["orders"]}`)}, {Tool: toolFetchOffsets, Args: json.RawMessage(`{"group_id":"g1"}`)}},
+			Later: []c40Op{{K: "up", N: 1, Topics: []c40Topic{{Name: "orders", Parts: 5}}}}})
 		r := vNewRand(vSeed())
 		n := vN(40, 400)
 		for i := 0; i < n; i++ {
 			rr := r.Fork()
-			cs := c40Case{Brokers: rr.Range(1, 3), Populate: c40GenPopulate(rr)}
+			cs := c40Case{Brokers: rr.Range(1, 3), Initial: c40GenSnapshotTopics(rr, 0, 3), Populate: c40GenPopulate(rr)}
 			for _, tool := range tools {
 				cs.Calls = append(cs.Calls, c40Call{Tool: tool, Args: c40GenArgs(rr, tool)})
 			}
+			cs.Later = c40GenLater(rr, cs)
 			runOne(cs)
 		}
 	}
